@@ -32,6 +32,10 @@ BAND = 1e-4
 
 def gen_workload(seed, wi):
     rng = random.Random(f"C10:{seed}:w:{wi}")
+    if wi % 4 == 3:
+        w = _novel_near_tie(rng)
+        if w:
+            return w
     world = WL.one_gene_world(rng, small=True)
     g = world["genes"][0]
     smp = {"name": "s0", "genes": {g["name"]: WL.gen_units(rng, g)}, "phase_seed": rng.randint(0, 999),
@@ -78,6 +82,34 @@ def gen_workload(seed, wi):
             "out": rng.choice(["aldy", "vcf", "simple", "simple", "none"]),
             "hashseed": rng.choice([0, 1, 2, 3]),
             "adversary": rng.choice([None, None, rng.randint(0, 10**9)])}
+
+
+def _novel_near_tie(rng):
+    """Large scores and a near-tie: one copy carries a core variant that no allele has on its own (it can
+    only be novel: +21.1 on every candidate) and 51-56 % of that copy's reads show the single core variant
+    of a catalogued allele X, so `*1/*X` and `*1/*1` differ by a few hundredths at a score above 21."""
+    world = WL.one_gene_world(rng, small=True, orphan_core="always", ambiguous=False, n_variants=8, n_major=3,
+                              lfusion=False, rfusion=False, tandem=False, edge_variant=None,
+                              kinds=["snp", "snp", "snp", "snp", "snp", "del"])
+    g = world["genes"][0]
+    V = g["variants"]
+    orphan = [a for a in g["alleles"] if a["kind"] == "normal" and len(a["vars"]) == 2
+              and all(V[v]["func"] and V[v]["kind"] == "snp" and sum(1 for b in g["alleles"] if v in b["vars"]) == 1
+                      for v in a["vars"])]
+    single = [a for a in g["alleles"] if a["kind"] == "normal" and len(a["vars"]) == 1 and V[a["vars"][0]]["func"]
+              and V[a["vars"][0]]["kind"] == "snp"]
+    if not orphan or not single:
+        return None
+    x = rng.choice(single)
+    smp = {"name": "s0", "phase_seed": rng.randint(0, 999), "paired": False, "thin": [],
+           "genes": {g["name"]: [
+               {"type": "normal", "allele": "1.001",
+                "noise": [{"vid": orphan[0]["vars"][0], "frac": 1.0},
+                          {"vid": x["vars"][0], "frac": rng.choice([0.51, 0.52, 0.53, 0.54, 0.56])}]},
+               {"type": "normal", "allele": "1.001"}]}}
+    return {"world": world, "samples": {"s0": smp}, "params": {"gap": rng.choice([0.3, 0.5, 1.0]), "max_minor_solutions": 1},
+            "build": "hg19", "out": rng.choice(["aldy", "vcf", "simple", "none"]), "hashseed": rng.choice([0, 1, 2, 3]),
+            "adversary": None}
 
 
 def gen_plan(rng, tier, i, seed):
